@@ -195,22 +195,33 @@ def check_encoder(prog, eff, fname):
         failing(lambda d: 1)
         return res, len(ps)
     if mode == "bool":
+        import termeval
+        from build import AnalysisBroken as _AB
         seen = set()
+        A0 = ("arg", 0)
         for d in succ:
             common(d, 1, "boolean")
-            fb = first_byte(d["stores"].get(0))
             st = d["path"].st
-            # which truth value of the parameter?
-            tv = None
-            for (t, truth, _) in st.facts:
-                x = t
-                while isinstance(x, tuple) and x[0] == "cast":
-                    x = x[3]
-                if x == ("arg", 0):
-                    tv = truth
-            want = off + 1 if tv else off
-            seen.add(tv)
-            R("offset", "%s -> 0x%02X" % (tv, want), fb == ("const", want), "emits %s for value %s" % (fb, tv))
+            stored = d["stores"].get(0)
+            for tv in (False, True):
+                env = {A0: int(tv)}
+                # is this truth value admitted by the path's facts about the parameter?
+                admitted = True
+                for (t, truth, _) in st.facts:
+                    try:
+                        if bool(termeval.evaluate(t, env, {})) != truth:
+                            admitted = False
+                    except _AB:
+                        pass      # a fact about something else (buffer size)
+                if not admitted:
+                    continue
+                want = off + 1 if tv else off
+                try:
+                    got = termeval.evaluate(stored, env, {}) & 0xFF if stored is not None else None
+                except _AB:
+                    got = None
+                seen.add(tv)
+                R("offset", "%s -> 0x%02X" % (tv, want), got == want, "emits %s for value %s" % (got if got is None else hex(got), tv))
         R("cover", "both truth values", seen == {True, False}, "paths cover %s" % seen)
         failing(lambda d: 1)
         return res, len(ps)
